@@ -24,7 +24,9 @@ type mdTok struct {
 	code   bool
 	strike bool
 	link   bool
+	math   bool
 	block  string // heading1..6 | para | list | task | quote | cell | math
+	seq    int    // inline sequence the token belongs to (tokens of one sequence are separated by a space or a soft break)
 }
 
 type mdGen struct {
@@ -36,6 +38,7 @@ type mdGen struct {
 	tables []mdTable
 	code   [][]string // expected lines of every code block
 	heads  map[string]int
+	seq    int
 }
 
 type mdTable struct {
@@ -52,6 +55,14 @@ func (g *mdGen) inline(block string, maxParts int) string {
 	r := g.r
 	var sb strings.Builder
 	parts := r.Range(1, maxParts)
+	hadMath := false
+	g.seq++
+	first := len(g.toks)
+	defer func() {
+		for i := first; i < len(g.toks); i++ {
+			g.toks[i].seq = g.seq
+		}
+	}()
 	for i := 0; i < parts; i++ {
 		if i > 0 {
 			if block == "para" && r.Chance(1, 6) {
@@ -100,6 +111,13 @@ func (g *mdGen) inline(block string, maxParts int) string {
 			t.tok = "http://example.com/" + w
 			sb.WriteString("<http://example.com/" + w + ">")
 			g.use("autolink")
+		case k == 13 && !hadMath:
+			// inline formula: a math-font run when math is enabled, literal text otherwise
+			// (one per inline sequence: how two '$...$' next to each other pair up is the math extension's business)
+			hadMath = true
+			t.math = true
+			sb.WriteString("$" + w + "$")
+			g.use("inline-math")
 		case k == 12:
 			// emphasis around a code span
 			t.em, t.code = true, true
@@ -191,6 +209,11 @@ func (g *mdGen) document() string {
 				sb.WriteString("    " + strings.Join(lines, "\n    ") + "\n\n")
 				g.use("indented-code")
 			}
+		case k == 9 && r.Bool():
+			w := g.word()
+			g.toks = append(g.toks, mdTok{tok: w, block: "mathblock", math: true})
+			sb.WriteString("$$\n" + w + "\n$$\n\n")
+			g.use("math-block")
 		case k == 9:
 			sb.WriteString("---\n\n")
 			g.use("thematic-break")
@@ -233,6 +256,7 @@ func (g *mdGen) document() string {
 type docTok struct {
 	tok                        string
 	bold, italic, strike, code bool
+	mathFont                   bool
 	style                      string
 	inTable                    bool
 }
@@ -254,6 +278,7 @@ func tokensOf(d *document.Document) []docTok {
 				if rp := r.Properties; rp != nil {
 					t.bold, t.italic, t.strike = rp.Bold != nil, rp.Italic != nil, rp.Strike != nil
 					t.code = rp.FontFamily != nil && strings.Contains(rp.FontFamily.ASCII, "Consolas")
+					t.mathFont = rp.FontFamily != nil && strings.Contains(rp.FontFamily.ASCII, "Math")
 				}
 				out = append(out, t)
 			}
@@ -379,11 +404,47 @@ func c19Fidelity(c *core.Ctx, r *rng.R) *core.Result {
 		if t.code && !x.code {
 			res.Add("fidelity/format/code-not-code-font/"+ctx+nestedCls(t), fmt.Sprintf("code span %s is not carried by a code-font run", t.tok), optNote, src)
 		}
+		if t.math && opts.EnableMath && !x.mathFont {
+			res.Add("fidelity/format/formula-not-in-math-font/"+ctx, fmt.Sprintf("formula %s is not carried by a math-font run although math is enabled", t.tok), optNote, src)
+		}
+		if t.math && !opts.EnableMath && x.mathFont {
+			res.Add("fidelity/format/formula-rendered-although-math-disabled/"+ctx, fmt.Sprintf("$%s$ is rendered as a formula although math is disabled", t.tok), optNote, src)
+		}
 		if t.strike && !x.strike {
 			res.Add("fidelity/format/strike-not-struck/"+ctx, fmt.Sprintf("struck %s is not carried by a strike run", t.tok), optNote, src)
 		}
 		if !t.em && !t.strong && !t.strike && (x.bold || x.italic || x.strike) {
 			res.Add("fidelity/format/plain-text-formatted/"+ctx, fmt.Sprintf("plain %s is carried by a formatted run (bold=%v italic=%v strike=%v)", t.tok, x.bold, x.italic, x.strike), optNote, src)
+		}
+	}
+	// 2b. words that were separated by a space or a soft break stay separated
+	var paraTexts []string
+	for _, p := range d.Body.GetParagraphs() {
+		var sb strings.Builder
+		for _, rr := range p.Runs {
+			sb.WriteString(rr.Text.Content)
+		}
+		paraTexts = append(paraTexts, sb.String())
+	}
+	for i := 0; i+1 < len(g.toks); i++ {
+		a, b := g.toks[i], g.toks[i+1]
+		if a.seq == 0 || a.seq != b.seq {
+			continue
+		}
+		for _, pt := range paraTexts {
+			ia := strings.Index(pt, a.tok)
+			if ia < 0 {
+				continue
+			}
+			ib := strings.Index(pt[ia+len(a.tok):], b.tok)
+			if ib < 0 {
+				continue
+			}
+			res.Count("word_separations_checked", 1)
+			if !strings.ContainsAny(pt[ia+len(a.tok):ia+len(a.tok)+ib], " \t\n") {
+				res.Add("fidelity/text/words-run-together/"+a.block, fmt.Sprintf("%s and %s were separated by white space or a soft break in the Markdown but are adjacent in the document: %q", a.tok, b.tok, pt), optNote, src)
+			}
+			break
 		}
 	}
 	// 3. code blocks keep lines and indentation
